@@ -1151,7 +1151,8 @@ type c19Job struct {
 
 func c19(c *Ctx) {
 	c.Rule = "random trees (≤ ~14 entries, depth ≤ 3 below PWD, 38% odd names with metacharacters/dots/spaces/backslashes, 0–3 symbolic links " +
-		"to files, directories, `.`/`..`, dangling and self-referential; no directory cycles) × words derived from an existing path " +
+		"to files, directories, `.`/`..`, dangling and self-referential; no directory cycles; 40% in family mode: siblings whose name extends " +
+		"another's with a byte below/above '/', at every depth) × words derived from an existing path (22%: a wildcard in a non-final element below a literal prefix, `*/*` `c*/[a-z]*` `*/` `*/*/*`; else " +
 		"(per component: literal, `*`, prefix/suffix star, `?`, brackets, `**`, random patterns, extended globs; `.`/`..`/empty components; " +
 		"relative, `./`, `../`, absolute; quoting style per atom: bare, backslash, '…', \"…\", ${v}) × the six options; " +
 		"non-trivial = the word reached Config.glob (unquoted metacharacter) ; distinct by exact tokens"
